@@ -71,6 +71,48 @@ ProcSetJudge(r) ==
       asruns == "runs" \in DOMAIN r.obs => Proj(r.obs.runs, "out") = ref
   IN [ok |-> same /\ asruns /\ \A k \in 1..Len(vs) : js[k].ok, free |-> \E k \in 1..Len(vs) : js[k].free]
 
+\* C11: several spellings of one message - each allowed by the specification, and the
+\* handlers, arguments, errors and output identical
+RunSetJudge(r) ==
+  LET os == r.obs
+      js == [k \in 1..Len(os) |->
+               LET E == RunEnd(CfgOf(r.iface), <<>>, Room(r.w), r.ins[k], os[k]) IN
+               [ok |-> RunMonitors(r.ins[k], r.w, os[k]) /\ E # {}, free |-> \A st \in E : st.free]]
+      ref == Proj(os[1], "out")
+  IN [ok |-> (\A k \in 1..Len(os) : js[k].ok) /\ \A k \in 2..Len(os) : Proj(os[k], "out") = ref,
+      free |-> \E k \in 1..Len(os) : js[k].free]
+
+\* C05/C04/C13: one input, several writers and several process configurations
+MultiJudge(r) ==
+  LET rs == r.obs.runs
+      ps == r.obs.procs
+      rj == [k \in 1..Len(rs) |->
+               IF r.writers[k].k = "rec"
+               THEN LET E == RunEnd(CfgOf(r.iface), <<>>, Room(r.writers[k]), r.in, rs[k]) IN
+                    [ok |-> RunMonitors(r.in, r.writers[k], rs[k]) /\ E # {}, free |-> \A st \in E : st.free]
+               ELSE [ok |-> RunMonitors(r.in, r.writers[k], rs[k]), free |-> FALSE]]
+      pj == [k \in 1..Len(ps) |->
+               LET E == ProcEnd(CfgOf(r.iface), r.procs[k].N, ps[k]) IN
+               [ok |-> ProcMonitors(ps[k]) /\ EndOk(r.procs[k].N, ps[k]) /\ E # {}, free |-> \A st \in E : st.free]]
+      \* the shipped writers produce the bytes the pass-through writer saw, when they have room
+      full == CatB(Pick(rs[1], 1, {"out"}))
+      wsame == \A k \in 2..Len(rs) :
+                 (r.writers[k].k \in {"std", "heapless"} /\ (r.writers[k].k = "std" \/ r.writers[k].cap >= Len(full)))
+                    => CatB(Pick(rs[k], 1, {"wout"})) = full
+  IN [ok |-> wsame /\ (\A k \in 1..Len(rs) : rj[k].ok) /\ \A k \in 1..Len(ps) : pj[k].ok,
+      free |-> (\E k \in 1..Len(rs) : rj[k].free) \/ \E k \in 1..Len(ps) : pj[k].free]
+
+\* C10: a transport error at every position of the adapter call sequence
+FailSetJudge(r) ==
+  LET ref == r.obs.ref
+      fs == r.obs.f
+      okref == LET E == ProcEnd(CfgOf(r.iface), r.N, ref) IN ProcMonitors(ref) /\ EndOk(r.N, ref) /\ E # {}
+      okf(o) == /\ ProcMonitors(o) /\ EndOk(r.N, o) /\ ProcEnd(CfgOf(r.iface), r.N, o) # {}
+                /\ Last(o).res = "injected"
+                \* everything before the failing call is what the fault-free session did
+                /\ Len(o) - 2 <= Len(ref) /\ SubSeq(o, 1, Len(o) - 2) = SubSeq(ref, 1, Len(o) - 2)
+  IN [ok |-> okref /\ \A k \in 1..Len(fs) : okf(fs[k]), free |-> FALSE]
+
 \* [ok, free] of one line
 Judge(r) ==
   CASE r.kind = "run" ->
@@ -78,6 +120,9 @@ Judge(r) ==
          [ok |-> RunMonitors(r.in, r.w, r.obs) /\ E # {}, free |-> \A st \in E : st.free]
     [] r.kind = "runs" -> RunsOk(CfgOf(r.iface), <<>>, r.w, r.msgs, 1, r.obs, 1)
     [] r.kind = "procset" -> ProcSetJudge(r)
+    [] r.kind = "runset" -> RunSetJudge(r)
+    [] r.kind = "multi" -> MultiJudge(r)
+    [] r.kind = "failset" -> FailSetJudge(r)
     [] r.kind = "process" ->
          LET E == ProcEnd(CfgOf(r.iface), r.N, r.obs) IN
          [ok |-> ProcMonitors(r.obs) /\ EndOk(r.N, r.obs) /\ E # {}, free |-> \A st \in E : st.free]
